@@ -77,10 +77,10 @@ Section D.
   Lemma canon_nth tys (r : row) i ty : nth_error tys i = Some ty -> plain_ty ty = true ->
     nth_error (map2 (canon_cell O) tys r) i = nth_error r i.
   Proof.
-    revert tys r; induction i as [|i IH]; intros [|t tys] [|c r] E P; cbn in *; try discriminate; try reflexivity.
-    - injection E as ->. destruct ty, c; try discriminate; reflexivity.
-    - destruct i; reflexivity.
-    - apply (IH tys r E P).
+    revert tys r; induction i as [|i IH]; intros tys r E P; destruct tys as [|t tys]; try discriminate E;
+      destruct r as [|c r]; try reflexivity.
+    - cbn in E. injection E as ->. cbn. destruct ty, c; try discriminate P; reflexivity.
+    - cbn in E. cbn. apply (IH tys r E P).
   Qed.
 
   Lemma in_canon_table fk (rows : table) (r' : row) : In r' (canon_table O fk rows) ->
@@ -117,7 +117,7 @@ Section D.
   Lemma sids_canon (rows : table) : map (key1 O) (canon_table O fk_sensors rows) = map (key1 O) rows.
   Proof.
     rewrite canon_sensors, map_map. apply map_ext. intro r.
-    apply (key1_canon fk_sensors); [apply (fk_of_ok FSensors)|cbn; lia].
+    apply key1_canon; [apply (fk_of_ok FSensors)|cbn; lia].
   Qed.
 
   Lemma ids_of_type_canon ty (rows : table) :
@@ -126,7 +126,7 @@ Section D.
     rewrite canon_sensors. unfold ids_of_type. induction rows as [|r rows IH]; [reflexivity|].
     cbn [map List.filter]. fold (sensor_type_is ty (canon_row O (fk_schema fk_sensors) r)). fold (sensor_type_is ty r).
     rewrite sensors_canon_type. destruct (sensor_type_is ty r); cbn [map]; rewrite IH; [|reflexivity].
-    f_equal. apply (key1_canon fk_sensors); [apply (fk_of_ok FSensors)|cbn; lia].
+    f_equal. apply key1_canon; [apply (fk_of_ok FSensors)|cbn; lia].
   Qed.
 
   (* ---------------------------------------------------------------- a table part through save / load *)
@@ -151,17 +151,17 @@ Section D.
   Proof.
     intros W R. destruct (table_wf_inv _ _ W) as [HW HN]. pose proof (fk_of_ok FRigs) as FK. cbn [fk_of] in FK.
     unfold read_rigs. rewrite (save_table_lexed O OK fk_rigs FK rows HW).
-    rewrite (read_rows_enc O OK fk_rigs FK _ (rows_wf_sorted O fk_rigs rows HW)).
+    rewrite (read_rows_enc O OK fk_rigs _ (rows_wf_sorted O fk_rigs rows HW)).
     change (map (canon_row O (fk_schema fk_rigs)) (sort_rows O fk_rigs rows)) with (canon_table O fk_rigs rows).
     assert (K1 : forall r, key1 O (canon_row O (fk_schema fk_rigs) r) = key1 O r)
-      by (intro r; apply (key1_canon fk_rigs FK); cbn; lia).
+      by (intro r; apply key1_canon; [exact FK|cbn; lia]).
     assert (D1 : forall r, dev_of O fk_rigs (canon_row O (fk_schema fk_rigs) r) = dev_of O fk_rigs r)
       by (intro r; apply (dev_of_canon O fk_rigs FK); cbn; lia).
     assert (E : existsb (fun r => tmem (key1 O r) sids) (canon_table O fk_rigs rows) = false).
     { destruct (existsb _ _) eqn:X; [|reflexivity]. apply existsb_exists in X. destruct X as [r' [I T]].
       destruct (in_canon_table _ _ _ I) as [r [Ir ->]]. rewrite K1 in T. apply tmem_In in T.
       exfalso. apply (proj1 (R r Ir)), T. }
-    rewrite E. rewrite (of_rows_nodup O OK) by (apply (keys_nodup_canon O OK fk_rigs FK), HN).
+    rewrite E. rewrite (of_rows_nodup O) by (apply (keys_nodup_canon O OK fk_rigs FK), HN).
     assert (IDS : map (key1 O) (canon_table O fk_rigs rows) = map (key1 O) rows).
     { unfold canon_table. rewrite sort_rows_0 by reflexivity. rewrite map_map. apply map_ext, K1. }
     rewrite IDS. f_equal. f_equal.
@@ -238,7 +238,7 @@ Section D.
   Lemma p3d_enc_rows_ok w (rows : table) : 2 <= w -> p3d_rows_wf w rows ->
     rows_ok (map (enc_row O (p3d_schema w)) rows).
   Proof.
-    intros L H. unfold rows_ok. induction H as [|r rows [Hl Hr] _ IH]; cbn; constructor; [|exact IH].
+    intros L H. unfold rows_ok. induction H as [|r rows [Hl Hr] _ IH]; cbn [map]; constructor; [|exact IH].
     split; [apply (enc_row_clean O OK), Hr|]. split; [rewrite (enc_row_length O _ r Hr); lia|].
     apply (enc_row_first_nohash O OK), Hr.
   Qed.
@@ -310,7 +310,7 @@ Section D.
     pose proof p3d_ok as P. unfold p3d_hdr_ok in P. rewrite !andb_true_iff in P.
     destruct P as [[[[[[[[_ _] _] PV] _] _] _] _] _]. rewrite PV.
     rewrite (save_p3d_lexed w rows Hw H), spec_p3d_schema.
-    clear E. induction H as [|r rows' [_ Hr] _ IH]; [reflexivity|]. cbn [map spec_rows].
+    clear E W. induction H as [|r rows' [_ Hr] _ IH]; [reflexivity|]. cbn [map spec_rows].
     rewrite (read_enc_row O OK false _ r Hr), IH. reflexivity.
   Qed.
 
@@ -318,8 +318,442 @@ Section D.
     save_p3d O (fst p, map (canon_row O (p3d_schema (fst p))) (snd p)) = save_p3d O p.
   Proof.
     intro W. destruct (p3d_wf_inv p W) as [_ H]. destruct p as [w rows]. cbn [fst snd] in *.
-    unfold save_p3d. do 4 f_equal. rewrite map_map. induction H as [|r rows' [_ Hr] _ IH]; [reflexivity|].
-    cbn [map]. rewrite (enc_canon_row O OK _ r Hr), IH. reflexivity.
+    assert (E : map (enc_row O (p3d_schema w)) (map (canon_row O (p3d_schema w)) rows) = map (enc_row O (p3d_schema w)) rows).
+    { clear W. rewrite map_map. induction H as [|r rows' [_ Hr] _ IH]; [reflexivity|].
+      cbn [map]. rewrite (enc_canon_row O OK _ r Hr), IH. reflexivity. }
+    unfold save_p3d. rewrite E. reflexivity.
   Qed.
 
+
+  (* ================================================================ the whole dataset *)
+  Definition images_equiv (a b : list txt) : Prop := forall i, In i a <-> In i b.
+  Definition featset_equiv (a b : featset O) : Prop :=
+    fs_key O a = fs_key O b /\ fs_cfg O a = fs_cfg O b /\ images_equiv (fs_images O a) (fs_images O b).
+  Definition feats_equiv (a b : option (list (featset O))) : Prop :=
+    match a, b with
+    | None, None => True
+    | Some l1, Some l2 => Forall2 featset_equiv l1 l2
+    | _, _ => False
+    end.
+  Definition pairs_equiv (a b : txt * list (txt * txt)) : Prop :=
+    fst a = fst b /\ forall p, In p (snd a) <-> In p (snd b).
+  Definition matches_equiv (a b : option (list (txt * list (txt * txt)))) : Prop :=
+    match a, b with
+    | None, None => True
+    | Some l1, Some l2 => Forall2 pairs_equiv l1 l2
+    | _, _ => False
+    end.
+  (* equality of datasets as the property understands it: tables (already in canonical order) and the
+     point cloud are equal; image sets and match sets have the same members *)
+  Definition ds_equiv (a b : dataset O) : Prop :=
+    (forall f, d_tab O a f = d_tab O b f) /\ d_p3d O a = d_p3d O b /\
+    (forall k, feats_equiv (d_feat O a k) (d_feat O b k)) /\ matches_equiv (d_matches O a) (d_matches O b).
+
+  Section Load.
+    Variable d : dataset O.
+    Hypothesis WF : wf O d = true.
+
+    Lemma wf_parts :
+      deps_ok O d = true /\
+      (forall f rows, d_tab O d f = Some rows -> table_wf O (fk_of f) rows = true) /\
+      (forall k l, d_feat O d k = Some l -> feat_wf O k l = true) /\
+      (forall l, d_matches O d = Some l -> matches_wf l = true) /\
+      (forall p, d_p3d O d = Some p -> p3d_wf O p = true) /\
+      refs_ok O d = true.
+    Proof.
+      unfold wf in WF. rewrite !andb_true_iff in WF. destruct WF as [[[[[D T] Fe] M] P] R].
+      split; [exact D|]. split; [|split; [|split; [|split; [|exact R]]]].
+      - intros f rows E. rewrite forallb_forall in T. specialize (T f (all_tfiles_complete f)). rewrite E in T. exact T.
+      - intros k l E. rewrite forallb_forall in Fe. specialize (Fe k (all_featkinds_complete k)). rewrite E in Fe. exact Fe.
+      - intros l E. rewrite E in M. exact M.
+      - intros p E. rewrite E in P. exact P.
+    Qed.
+
+    Let sensors := tab_or_nil O d FSensors.
+    Let sids := map (key1 O) sensors.
+    Let rigs := tab_or_nil O d FRigs.
+    Let rig_ids := map (key1 O) rigs.
+    Let imgs := cam_images O (d_tab O d (FRec RCamera)).
+
+    Lemma refs_parts :
+      (forall r, In r rigs -> ~ In (key1 O r) sids /\ (In (dev_of O fk_rigs r) sids \/ In (dev_of O fk_rigs r) rig_ids)) /\
+      (forall r, In r (tab_or_nil O d FTraj) -> In (dev_of O fk_traj r) (sids ++ rig_ids)) /\
+      (forall k r, In r (tab_or_nil O d (FRec k)) ->
+                   In (dev_of O (fk_rec k) r) (ids_of_type O (rec_sensor_type k) sensors)) /\
+      (forall k l s i, d_feat O d k = Some l -> In s l -> In i (fs_images O s) -> In i imgs) /\
+      (forall l e p, d_matches O d = Some l -> In e l -> In p (snd e) -> In (fst p) imgs /\ In (snd p) imgs).
+    Proof.
+      destruct wf_parts as [_ [_ [_ [_ [_ R]]]]]. unfold refs_ok in R.
+      fold sensors sids rigs rig_ids imgs in R. rewrite !andb_true_iff in R.
+      destruct R as [[[[[R1 R2] R3] R4] R5] _].
+      split; [|split; [|split; [|split]]].
+      - intros r I. rewrite forallb_forall in R1. specialize (R1 r I).
+        rewrite andb_true_iff, negb_true_iff, orb_true_iff in R1. destruct R1 as [A B]. split.
+        + intro X. apply tmem_In in X. congruence.
+        + rewrite <- !tmem_In. exact B.
+      - intros r I. rewrite forallb_forall in R2. apply tmem_In, R2, I.
+      - intros k r I. rewrite forallb_forall in R3.
+        assert (Ik : In k all_reckinds) by (destruct k; cbn; tauto).
+        specialize (R3 k Ik). rewrite forallb_forall in R3. apply tmem_In, R3, I.
+      - intros k l s i E Is Ii. rewrite forallb_forall in R4. specialize (R4 k (all_featkinds_complete k)).
+        rewrite E in R4. rewrite forallb_forall in R4. specialize (R4 s Is). rewrite forallb_forall in R4.
+        apply tmem_In, R4, Ii.
+      - intros l e p E Ie Ip. rewrite E in R5. rewrite forallb_forall in R5. specialize (R5 e Ie).
+        rewrite forallb_forall in R5. specialize (R5 p Ip). rewrite andb_true_iff, !tmem_In in R5. exact R5.
+    Qed.
+
+    Lemma sensors_present : exists srows, d_tab O d FSensors = Some srows.
+    Proof.
+      destruct wf_parts as [D _]. unfold deps_ok in D. rewrite !andb_true_iff in D. destruct D as [[D _] _].
+      destruct (d_tab O d FSensors) as [s|]; [exists s; reflexivity|discriminate].
+    Qed.
+
+    Lemma tab_or_nil_some f rows : d_tab O d f = Some rows -> tab_or_nil O d f = rows.
+    Proof. unfold tab_or_nil. intros ->. reflexivity. Qed.
+
+    Lemma fk_key_nz f : fk_key (fk_of f) <> 0.
+    Proof. destruct f as [| | |k|]; try destruct k; cbn; discriminate. Qed.
+
+    (* ---- each step of kapture_from_dir on the saved tree *)
+    Lemma step_sensors srows : d_tab O d FSensors = Some srows ->
+      t_tab (save O d) FSensors = Some (save_table O fk_sensors srows) /\
+      version_first (save_table O fk_sensors srows) = true /\
+      read_table O fk_sensors None (save_table O fk_sensors srows) = Ok (canon_table O fk_sensors srows).
+    Proof.
+      intro E. split; [cbn [save t_tab]; rewrite E; reflexivity|]. split.
+      - apply (save_table_version_first O fk_sensors (fk_of_ok FSensors)).
+      - destruct wf_parts as [_ [T _]]. apply (roundtrip_tab FSensors None srows (T _ _ E) I). cbn. discriminate.
+    Qed.
+
+    Lemma step_rigs srows : d_tab O d FSensors = Some srows ->
+      load_rigs O (save O d) (map (key1 O) (canon_table O fk_sensors srows)) =
+      Ok (option_map (canon_table O fk_rigs) (d_tab O d FRigs), rig_ids).
+    Proof.
+      intro E. rewrite sids_canon. unfold load_rigs. cbn [save t_tab]. unfold rig_ids, rigs, tab_or_nil.
+      destruct (d_tab O d FRigs) as [rrows|] eqn:ER; cbn [option_map]; [|reflexivity].
+      destruct wf_parts as [_ [T _]]. destruct refs_parts as [R1 _].
+      unfold rig_ids, rigs, sids, sensors, tab_or_nil in R1. rewrite ER, E in R1.
+      change (fk_of FRigs) with fk_rigs. rewrite (read_rigs_save _ rrows (T _ _ ER) R1). reflexivity.
+    Qed.
+
+    Lemma step_rec srows k : d_tab O d FSensors = Some srows ->
+      load_rec O false (save O d) (canon_table O fk_sensors srows) k =
+      Ok (option_map (canon_table O (fk_rec k)) (d_tab O d (FRec k))).
+    Proof.
+      intro E. unfold load_rec. cbn [save t_tab]. destruct (d_tab O d (FRec k)) as [rows|] eqn:ER; cbn [option_map opt_bind]; [|reflexivity].
+      cbn [andb]. rewrite ids_of_type_canon.
+      destruct wf_parts as [_ [T _]]. destruct refs_parts as [_ [_ [R3 _]]].
+      change (fk_rec k) with (fk_of (FRec k)).
+      rewrite (roundtrip_tab (FRec k) _ rows (T _ _ ER)); [reflexivity| |apply fk_key_nz].
+      intros r I. specialize (R3 k r). unfold sensors in R3. rewrite (tab_or_nil_some _ _ ER), (tab_or_nil_some _ _ E) in R3.
+      apply R3, I.
+    Qed.
+
+    Lemma step_traj srows : d_tab O d FSensors = Some srows ->
+      load_traj O (save O d) (map (key1 O) (canon_table O fk_sensors srows) ++ rig_ids) =
+      Ok (option_map (canon_table O fk_traj) (d_tab O d FTraj)).
+    Proof.
+      intro E. rewrite sids_canon. unfold load_traj. cbn [save t_tab].
+      destruct (d_tab O d FTraj) as [rows|] eqn:ER; cbn [option_map opt_bind]; [|reflexivity].
+      destruct wf_parts as [_ [T _]]. destruct refs_parts as [_ [R2 _]].
+      change fk_traj with (fk_of FTraj).
+      rewrite (roundtrip_tab FTraj _ rows (T _ _ ER)); [reflexivity| |apply fk_key_nz].
+      intros r I. specialize (R2 r). unfold sids, sensors in R2. rewrite (tab_or_nil_some _ _ ER), (tab_or_nil_some _ _ E) in R2.
+      apply R2, I.
+    Qed.
+
+    Lemma step_p3d :
+      load_p3d O false (save O d) =
+      Ok (option_map (fun p => (fst p, map (canon_row O (p3d_schema (fst p))) (snd p))) (d_p3d O d)).
+    Proof.
+      unfold load_p3d. cbn [save t_p3d]. destruct (d_p3d O d) as [p|] eqn:E; cbn [option_map]; [|reflexivity].
+      destruct wf_parts as [_ [_ [_ [_ [P _]]]]]. fold (read_p3d O (save_p3d O p)). rewrite (read_p3d_save p (P _ E)). reflexivity.
+    Qed.
+
+    (* images of the canonical camera records = images of the camera records *)
+    Lemma cam_images_canon i :
+      In i (cam_images O (option_map (canon_table O (fk_rec RCamera)) (d_tab O d (FRec RCamera)))) <-> In i imgs.
+    Proof.
+      unfold imgs. destruct (d_tab O d (FRec RCamera)) as [rows|]; cbn [option_map cam_images]; [|tauto].
+      assert (NE : forall (l : row) n, nth n l CNone = match nth_error l n with Some x => x | None => CNone end).
+      { induction l as [|x l IHl]; intros [|n]; cbn; auto. }
+      assert (N : forall r : row, nth 2 (canon_row O (fk_schema (fk_rec RCamera)) r) CNone = nth 2 r CNone).
+      { intro r. rewrite !NE. unfold canon_row, row_types, types_for. cbn [fk_schema fk_rec fk_recfile mk_schema s_fixed s_group].
+        rewrite (canon_nth _ r 2 TStr); reflexivity. }
+      split; intro I; apply in_map_iff in I; destruct I as [r [<- I]].
+      - destruct (in_canon_table _ _ _ I) as [r0 [I0 ->]]. rewrite N. apply in_map_iff. exists r0. split; [reflexivity|exact I0].
+      - apply in_map_iff. exists (canon_row O (fk_schema (fk_rec RCamera)) r). split; [rewrite N; reflexivity|].
+        apply in_canon_table_rev, I.
+    Qed.
+
+    Lemma cams_some_iff : is_some (option_map (canon_table O (fk_rec RCamera)) (d_tab O d (FRec RCamera))) =
+                          is_some (d_tab O d (FRec RCamera)).
+    Proof. destruct (d_tab O d (FRec RCamera)); reflexivity. Qed.
+
+    Let cams' := option_map (canon_table O (fk_rec RCamera)) (d_tab O d (FRec RCamera)).
+
+    Lemma step_feat_list k (l : list (featset O)) :
+      (forall s, In s l -> row_wf O (fk_schema (fk_feat k)) (fs_cfg O s) = true) ->
+      load_feat_list O (save O d) k (cam_images O cams')
+                     (map (fun s => (fs_key O s, save_table O (fk_feat k) [fs_cfg O s])) l) =
+      Ok (map (fun s => {| fs_key := fs_key O s; fs_cfg := fs_cfg O s;
+                           fs_images := List.filter (has_featfile (save O d) k (fs_key O s)) (cam_images O cams') |}) l).
+    Proof.
+      induction l as [|s l IH]; intro H; [reflexivity|]. cbn [map load_feat_list].
+      rewrite (read_config_save k (fs_cfg O s)) by (apply H; left; reflexivity).
+      rewrite IH by (intros s' I; apply H; right; exact I). reflexivity.
+    Qed.
+
+    Lemma has_featfile_save k l key i : d_feat O d k = Some l ->
+      has_featfile (save O d) k key i = true <-> exists s, In s l /\ fs_key O s = key /\ In i (fs_images O s).
+    Proof.
+      intro E. unfold has_featfile. cbn [save t_featfiles]. rewrite E, existsb_exists. split.
+      - intros [p [I T]]. rewrite andb_true_iff, !txt_eqb_eq in T. destruct T as [T1 T2].
+        apply in_flat_map in I. destruct I as [s [Is Ip]]. apply in_map_iff in Ip. destruct Ip as [i' [<- Ii]].
+        cbn in T1, T2. subst. exists s. tauto.
+      - intros [s [Is [<- Ii]]]. exists (fs_key O s, i). split; [|cbn; rewrite !txt_eqb_refl; reflexivity].
+        apply in_flat_map. exists s. split; [exact Is|]. apply in_map_iff. exists i. tauto.
+    Qed.
+
+    Lemma nodup_txt l : nodup_by txt_eqb l = true <-> NoDup l.
+    Proof.
+      rewrite (nodup_by_NoDup txt_eqb (fun x => x) l); [rewrite map_id; tauto|]. intros x y. apply txt_eqb_eq.
+    Qed.
+
+    Lemma step_feat k :
+      exists r, load_feat O (save O d) cams' k = Ok r /\ feats_equiv r (d_feat O d k).
+    Proof.
+      unfold load_feat. cbn [save t_cfg]. destruct (d_feat O d k) as [l|] eqn:E; [|exists None; split; [reflexivity|exact I]].
+      destruct wf_parts as [D [_ [Fw _]]]. specialize (Fw k l E). unfold feat_wf in Fw. rewrite !andb_true_iff in Fw.
+      destruct Fw as [[NE ND] Fa]. destruct l as [|s0 l0]; [discriminate|].
+      assert (CAM : exists c, cams' = Some c).
+      { unfold deps_ok in D. rewrite !andb_true_iff in D. destruct D as [[_ D] _]. rewrite orb_true_iff in D.
+        destruct D as [D|D].
+        - unfold cams'. destruct (d_tab O d (FRec RCamera)) as [c|]; [eexists; reflexivity|discriminate].
+        - exfalso. rewrite negb_true_iff, orb_false_iff in D. destruct D as [D _].
+          assert (X : existsb (fun k => is_some (d_feat O d k)) all_featkinds = true).
+          { apply existsb_exists. exists k. split; [apply all_featkinds_complete|rewrite E; reflexivity]. }
+          congruence. }
+      destruct CAM as [c Ec]. cbn [map]. rewrite Ec. rewrite <- Ec.
+      change ((fs_key O s0, save_table O (fk_feat k) [fs_cfg O s0]) :: map (fun s => (fs_key O s, save_table O (fk_feat k) [fs_cfg O s])) l0)
+        with (map (fun s => (fs_key O s, save_table O (fk_feat k) [fs_cfg O s])) (s0 :: l0)).
+      rewrite step_feat_list.
+      - eexists. split; [reflexivity|]. cbn [feats_equiv].
+        rewrite forallb_forall in Fa. apply (nodup_txt (map (fs_key O) (s0 :: l0))) in ND.
+        assert (G : forall l', (forall s, In s l' -> In s (s0 :: l0)) ->
+                    Forall2 featset_equiv
+                      (map (fun s => {| fs_key := fs_key O s; fs_cfg := fs_cfg O s;
+                                        fs_images := List.filter (has_featfile (save O d) k (fs_key O s)) (cam_images O cams') |}) l') l').
+        { induction l' as [|s l' IH]; intro Sub; cbn [map]; constructor.
+          - split; [reflexivity|]. split; [reflexivity|]. intro i. cbn [fs_images]. rewrite filter_In.
+            rewrite (has_featfile_save k _ _ _ E). unfold cams'. rewrite cam_images_canon. split.
+            + intros [_ [s' [Is' [Ek Ii]]]].
+              assert (s' = s).
+              { clear -ND Is' Ek Sub. assert (Is : In s (s0 :: l0)) by (apply Sub; left; reflexivity).
+                revert ND Is' Is Ek. generalize (s0 :: l0). intro L. induction L as [|x L IHL]; [intros _ []|].
+                cbn [map]. intros ND [->|I1] [->|I2] Ek; auto.
+                - exfalso. inversion ND as [|? ? N _]; subst. apply N. rewrite Ek. apply in_map, I2.
+                - exfalso. inversion ND as [|? ? N _]; subst. apply N. rewrite <- Ek. apply in_map, I1.
+                - inversion ND; subst. apply IHL; assumption. }
+              subst. exact Ii.
+            + intro Ii. split.
+              * destruct refs_parts as [_ [_ [_ [R4 _]]]]. apply (R4 k _ s i E); [apply Sub; left; reflexivity|exact Ii].
+              * exists s. split; [apply Sub; left; reflexivity|]. tauto.
+          - apply IH. intros s' I'. apply Sub. right. exact I'. }
+        apply G. auto.
+      - intros s Is. rewrite forallb_forall in Fa. specialize (Fa s Is). rewrite !andb_true_iff in Fa. tauto.
+    Qed.
+
+    Lemma step_matches :
+      exists r, load_matches O (save O d) cams' = Ok r /\ matches_equiv r (d_matches O d).
+    Proof.
+      unfold load_matches. cbn [save t_matchdirs]. destruct (d_matches O d) as [l|] eqn:E; [|exists None; split; [reflexivity|exact I]].
+      destruct wf_parts as [D [_ [_ [Mw _]]]]. specialize (Mw l E). unfold matches_wf in Mw. rewrite andb_true_iff in Mw.
+      destruct Mw as [NE ND]. destruct l as [|e0 l0]; [discriminate|].
+      assert (CAM : exists c, cams' = Some c).
+      { unfold deps_ok in D. rewrite !andb_true_iff in D. destruct D as [[_ D] _]. rewrite orb_true_iff in D.
+        destruct D as [D|D].
+        - unfold cams'. destruct (d_tab O d (FRec RCamera)) as [c|]; [eexists; reflexivity|discriminate].
+        - exfalso. rewrite negb_true_iff, orb_false_iff in D. destruct D as [_ D]. rewrite E in D. discriminate. }
+      destruct CAM as [c Ec]. cbn [map]. rewrite Ec. rewrite <- Ec. eexists. split; [reflexivity|]. cbn [matches_equiv].
+      change (fst e0 :: map fst l0) with (map fst (e0 :: l0)). rewrite map_map.
+      apply (nodup_txt (map fst (e0 :: l0))) in ND.
+      assert (G : forall l', (forall e, In e l' -> In e (e0 :: l0)) ->
+                  Forall2 pairs_equiv (map (fun e => (fst e, match_pairs (save O d) (cam_images O cams') (fst e))) l') l').
+      { induction l' as [|e l' IH]; intro Sub; cbn [map]; constructor.
+        - split; [reflexivity|]. intro p. cbn [fst snd]. unfold match_pairs. rewrite in_map_iff. split.
+          + intros [[kt q] [<- I']]. apply filter_In in I'. destruct I' as [I' T]. cbn [fst snd] in T |- *.
+            rewrite !andb_true_iff, txt_eqb_eq in T. destruct T as [[-> _] _].
+            cbn [save t_matchfiles] in I'. rewrite E in I'. apply in_flat_map in I'. destruct I' as [e' [Ie' Ip]].
+            apply in_map_iff in Ip. destruct Ip as [q' [[= Ek ->] Iq]].
+            assert (e' = e).
+            { clear -ND Ie' Ek Sub. assert (Ie : In e (e0 :: l0)) by (apply Sub; left; reflexivity).
+              revert ND Ie' Ie Ek. generalize (e0 :: l0). intro L. induction L as [|x L IHL]; [intros _ []|].
+              cbn [map]. intros ND [->|I1] [->|I2] Ek; auto.
+              - exfalso. inversion ND as [|? ? N _]; subst. apply N. rewrite Ek. apply in_map, I2.
+              - exfalso. inversion ND as [|? ? N _]; subst. apply N. rewrite <- Ek. apply in_map, I1.
+              - inversion ND; subst. apply IHL; assumption. }
+            subst. exact Iq.
+          + intro Ip. exists (fst e, p). split; [reflexivity|]. apply filter_In. split.
+            * cbn [save t_matchfiles]. rewrite E. apply in_flat_map. exists e. split; [apply Sub; left; reflexivity|].
+              apply in_map_iff. exists p. tauto.
+            * cbn [fst snd]. rewrite txt_eqb_refl. cbn [andb].
+              destruct refs_parts as [_ [_ [_ [_ R5]]]]. destruct (R5 _ e p E (Sub e (or_introl eq_refl)) Ip) as [A B].
+              unfold cams'. rewrite andb_true_iff, !tmem_In, !cam_images_canon. tauto.
+        - apply IH. intros e' I'. apply Sub. right. exact I'. }
+      exact (G (e0 :: l0) (fun e H => H)).
+    Qed.
+    (* ---- observations *)
+    Lemma types_for_nocanon sch n : forallb no_canon_ty (s_fixed sch) = true -> forallb no_canon_ty (s_group sch) = true ->
+      forallb no_canon_ty (types_for sch n) = true.
+    Proof.
+      intros A B. unfold types_for. rewrite forallb_app, A. cbn [andb]. unfold tail_types.
+      destruct (s_group sch) as [|g gs] eqn:E; [reflexivity|]. rewrite <- E in *.
+      generalize (seq 0 ((n - List.length (s_fixed sch)) / List.length (s_group sch))). intro l.
+      induction l as [|x l IH]; [reflexivity|]. cbn [flat_map]. rewrite forallb_app, B, IH. reflexivity.
+    Qed.
+
+    Lemma map2_canon_id tys (r : row) : forallb no_canon_ty tys = true -> List.length tys = List.length r ->
+      map2 (canon_cell O) tys r = r.
+    Proof.
+      revert r; induction tys as [|ty tys IH]; intros [|c r] P L; cbn in L |- *; try discriminate; [reflexivity|].
+      cbn in P. rewrite andb_true_iff in P. destruct P as [P1 P2]. rewrite (IH r P2) by lia. f_equal.
+      destruct ty, c; try discriminate; reflexivity.
+    Qed.
+
+    Lemma obs_canon_row (r : row) : row_wf O (fk_schema fk_obs) r = true -> canon_row O (fk_schema fk_obs) r = r.
+    Proof.
+      intro W. apply (row_wf_inv O) in W. destruct W as [L _]. unfold canon_row. apply map2_canon_id; [|exact L].
+      apply types_for_nocanon; reflexivity.
+    Qed.
+
+    Lemma obs_canon_table (rows : table) : rows_wf O fk_obs rows ->
+      canon_table O fk_obs rows = sort_rows O fk_obs rows.
+    Proof.
+      intro H. unfold canon_table. apply (rows_wf_sorted O fk_obs) in H. induction H as [|r l [Hr _] _ IH]; [reflexivity|].
+      cbn [map]. rewrite (obs_canon_row r Hr), IH. reflexivity.
+    Qed.
+
+    Lemma assoc_equiv (l1 l2 : list (featset O)) kt i2 : Forall2 featset_equiv l1 l2 ->
+      assoc kt (kp_map O l2) = Some i2 -> exists i1, assoc kt (kp_map O l1) = Some i1 /\ images_equiv i1 i2.
+    Proof.
+      intro H. induction H as [|a b l1 l2 [Ek [_ Ei]] _ IH]; cbn; [discriminate|].
+      rewrite Ek. destruct (txt_eqb kt (fs_key O b)); [|exact IH]. intros [= <-]. eexists. split; [reflexivity|exact Ei].
+    Qed.
+
+    Lemma filter_pairs_known imgs1 imgs2 (tl : row) : images_equiv imgs1 imgs2 -> pairs_known O imgs2 tl = true ->
+      filter_pairs O imgs1 tl = tl.
+    Proof.
+      intro Ei. revert tl. fix REC 1. intros [|c [|n rest]]; [reflexivity| |].
+      - destruct c; discriminate.
+      - destruct c; try discriminate. cbn [pairs_known filter_pairs]. rewrite andb_true_iff. intros [T K].
+        apply tmem_In, Ei, tmem_In in T. rewrite T, (REC rest K). reflexivity.
+    Qed.
+
+    Lemma step_obs kp' p3d' :
+      feats_equiv kp' (d_feat O d KKeypoints) -> is_some p3d' = is_some (d_p3d O d) ->
+      load_obs O (save O d) kp' p3d' = Ok (option_map (canon_table O fk_obs) (d_tab O d FObs)).
+    Proof.
+      intros FE PE. unfold load_obs. cbn [save t_tab]. destruct (d_tab O d FObs) as [rows|] eqn:ER; cbn [option_map opt_bind]; [|reflexivity].
+      destruct wf_parts as [D [T [_ [_ [_ R]]]]]. destruct (table_wf_inv _ _ (T _ _ ER)) as [HW HN].
+      unfold deps_ok in D. rewrite !andb_true_iff in D. destruct D as [_ D]. rewrite ER in D. cbn in D.
+      rewrite andb_true_iff in D. destruct D as [DK DP].
+      destruct (d_feat O d KKeypoints) as [kps|] eqn:EK; [|discriminate]. destruct (d_p3d O d) as [pp|]; [|discriminate].
+      destruct kp' as [kps'|]; [|contradiction]. destruct p3d' as [pp'|]; [|discriminate]. cbn [feats_equiv] in FE.
+      pose proof (fk_of_ok FObs) as FK. cbn [fk_of] in FK.
+      unfold read_obs. change (fk_of FObs) with fk_obs.
+      rewrite (save_table_lexed O OK fk_obs FK rows HW), (read_rows_enc O OK fk_obs _ (rows_wf_sorted O fk_obs rows HW)).
+      change (map (canon_row O (fk_schema fk_obs)) (sort_rows O fk_obs rows)) with (canon_table O fk_obs rows).
+      assert (FI : filter_obs O (kp_map O kps') (canon_table O fk_obs rows) = canon_table O fk_obs rows).
+      { rewrite (obs_canon_table rows HW).
+        unfold refs_ok in R. rewrite !andb_true_iff in R. destruct R as [_ R6]. rewrite EK in R6.
+        unfold tab_or_nil in R6. rewrite ER in R6.
+        assert (R6' : forallb (fun r => match r with
+                          | _ :: CStr kt :: tail => match assoc kt (kp_map O kps) with Some i => pairs_known O i tail | None => false end
+                          | _ => false end) (sort_rows O fk_obs rows) = true)
+          by (apply (forallb_perm _ rows); [apply Permutation_sym, sort_rows_perm|exact R6]).
+        assert (LEN : Forall (fun r => 4 <= List.length r) (sort_rows O fk_obs rows)).
+        { apply (rows_wf_sorted O fk_obs) in HW. clear -HW OK. induction HW as [|r l [Hr Hp] _ IH]; constructor; [|exact IH].
+          rewrite (obs_canon_row r Hr) in Hp. cbn [fk_post fk_obs post_ok] in Hp. apply Nat.leb_le in Hp. exact Hp. }
+        revert R6' LEN. generalize (sort_rows O fk_obs rows). intro l. induction l as [|r l IH]; intros R6' LEN; [reflexivity|].
+        cbn [forallb] in R6'. rewrite andb_true_iff in R6'. destruct R6' as [Hr Hl]. inversion LEN as [|? ? Lr Ll]; subst.
+        cbn [filter_obs flat_map]. fold (filter_obs O (kp_map O kps') l). rewrite (IH Hl Ll).
+        destruct r as [|c0 [|c1 tail]]; try discriminate. destruct c1; try discriminate.
+        destruct (assoc s (kp_map O kps)) as [i2|] eqn:EA; [|discriminate].
+        destruct (assoc_equiv kps' kps s i2 FE EA) as [i1 [EA1 Ei]]. rewrite EA1.
+        rewrite (filter_pairs_known i1 i2 tail Ei Hr).
+        destruct tail as [|t0 [|t1 tail']]; cbn in Lr; try lia.
+        destruct t0; try discriminate. cbn [pairs_known] in Hr. rewrite andb_true_iff in Hr. destruct Hr as [Ht _].
+        apply tmem_In, Ei in Ht. destruct i1 as [|x i1]; [destruct Ht|]. reflexivity. }
+      rewrite FI. rewrite (of_rows_nodup O) by (apply (keys_nodup_canon O OK fk_obs FK), HN). reflexivity.
+    Qed.
+
+    (* ---- assembling kapture_from_dir *)
+    Theorem load_save : exists d', load O (save O d) = Ok d' /\ ds_equiv d' (canon O d).
+    Proof.
+      destruct sensors_present as [srows ES]. destruct (step_sensors srows ES) as [S1 [S2 S3]].
+      unfold load, load_gen. rewrite S1, S2. cbn [negb]. rewrite S3. cbv zeta.
+      rewrite (step_rigs srows ES). rewrite (step_rec srows RCamera ES).
+      fold cams'. destruct (step_feat KKeypoints) as [kp [E1 Q1]]. destruct (step_feat KDescriptors) as [de [E2 Q2]].
+      destruct (step_feat KGlobal) as [gf [E3 Q3]]. destruct step_matches as [ma [E4 Q4]].
+      rewrite E1, E2, E3, E4, step_p3d.
+      set (p3d' := option_map (fun p => (fst p, map (canon_row O (p3d_schema (fst p))) (snd p))) (d_p3d O d)).
+      assert (TAB : forall f, load_tab O false (save O d) (canon_table O fk_sensors srows)
+                                (option_map (canon_table O fk_rigs) (d_tab O d FRigs))
+                                (map (key1 O) (canon_table O fk_sensors srows) ++ rig_ids) kp p3d' f =
+                              Ok (option_map (canon_table O (fk_of f)) (d_tab O d f))).
+      { intros [| | |k|]; cbn [load_tab fk_of].
+        - rewrite ES. reflexivity.
+        - reflexivity.
+        - apply step_traj, ES.
+        - apply step_rec, ES.
+        - apply step_obs; [exact Q1|]. unfold p3d'. destruct (d_p3d O d); reflexivity. }
+      assert (ALL : forallb (fun f => is_ok (load_tab O false (save O d) (canon_table O fk_sensors srows)
+                                (option_map (canon_table O fk_rigs) (d_tab O d FRigs))
+                                (map (key1 O) (canon_table O fk_sensors srows) ++ rig_ids) kp p3d' f)) all_tfiles = true).
+      { apply forallb_forall. intros f _. rewrite TAB. reflexivity. }
+      rewrite ALL. eexists. split; [reflexivity|].
+      unfold ds_equiv. cbn [d_tab d_feat d_matches d_p3d canon]. split; [|split; [|split]].
+      - intro f. rewrite TAB. reflexivity.
+      - reflexivity.
+      - intros [| |]; assumption.
+      - exact Q4.
+    Qed.
+
+    (* absent parts stay absent, present parts stay present *)
+    Theorem presence_preserved d' : load O (save O d) = Ok d' ->
+      (forall f, is_some (d_tab O d' f) = is_some (d_tab O d f)) /\
+      (forall k, is_some (d_feat O d' k) = is_some (d_feat O d k)) /\
+      is_some (d_matches O d') = is_some (d_matches O d) /\
+      is_some (d_p3d O d') = is_some (d_p3d O d).
+    Proof.
+      intro E. destruct load_save as [d'' [E' [T [P [Fq M]]]]]. rewrite E in E'. injection E' as <-.
+      split; [|split; [|split]].
+      - intro f. rewrite T. cbn [canon d_tab]. destruct (d_tab O d f); reflexivity.
+      - intro k. specialize (Fq k). cbn [canon d_feat] in Fq. destruct (d_feat O d' k), (d_feat O d k); cbn in *; tauto.
+      - cbn [canon d_matches] in M. destruct (d_matches O d'), (d_matches O d); cbn in *; tauto.
+      - rewrite P. cbn [canon d_p3d]. destruct (d_p3d O d); reflexivity.
+    Qed.
+
+    (* saving the reloaded dataset writes byte-identical text files *)
+    Theorem resave_identical d' : load O (save O d) = Ok d' ->
+      (forall f, t_tab (save O d') f = t_tab (save O d) f) /\
+      t_p3d (save O d') = t_p3d (save O d) /\
+      (forall k, t_cfg (save O d') k = t_cfg (save O d) k).
+    Proof.
+      intro E. destruct load_save as [d'' [E' [T [P [Fq M]]]]]. rewrite E in E'. injection E' as <-.
+      destruct wf_parts as [_ [TW [FW [_ [PW _]]]]].
+      split; [|split].
+      - intro f. cbn [save t_tab]. rewrite T. cbn [canon d_tab]. destruct (d_tab O d f) as [rows|] eqn:ER; [|reflexivity].
+        cbn [option_map]. f_equal. destruct (table_wf_inv _ _ (TW _ _ ER)) as [HW _].
+        apply (resave_table O OK (fk_of f) (fk_of_ok f) rows HW).
+      - cbn [save t_p3d]. rewrite P. cbn [canon d_p3d]. destruct (d_p3d O d) as [p|] eqn:EP; [|reflexivity].
+        cbn [option_map]. f_equal. apply resave_p3d, PW. reflexivity.
+      - intro k. cbn [save t_cfg]. specialize (Fq k). cbn [canon d_feat] in Fq.
+        destruct (d_feat O d' k) as [l1|], (d_feat O d k) as [l2|]; cbn in Fq; try contradiction; [|reflexivity].
+        induction Fq as [|a b l1 l2 [Ek [Ec _]] _ IH]; [reflexivity|]. cbn [map]. rewrite Ek, Ec, IH. reflexivity.
+    Qed.
+  End Load.
+
 End D.
+
